@@ -45,7 +45,8 @@ def check(prog: Program, tier: str) -> Result:
             "rational x, reported as a note); the flags and sets are tied to the yields they control; (R17.5) each "
             "comparison-folding branch applies the Python operator of the class it tests; (R17.6) the per-template "
             "bound updates of simplify_constrained_range are decided as difference-constraint claims over a finite box. "
-            "Not decided: sympy round trip, sum closed forms."),
+            "(R17.7) no loop-carried state in the per-condition loops (definite-assignment analysis); (R17.8) the negation helper builds new "
+            "nodes instead of flipping operators in the tree it was given. Not decided: sympy round trip, sum closed forms."),
         rule_text="instances = table entries, reader sites, extracted bound claims (one per guarded effect statement), folding branches",
     )
     res.trusted_base = ["CPython ast", "reference semantics of the six comparison operators (python operator module) on small rationals",
@@ -911,7 +912,7 @@ VARIANTS = [
 
 META = {
     "design_ref": "DESIGN.md section 3, C17",
-    "technique": "table extraction + finite order-type decision of every extracted bound claim; constructor-shape checks (De Morgan, negation/mirror tables)",
+    "technique": "table extraction + finite order-type decision of every extracted bound claim; constructor-shape checks (De Morgan, negation/mirror tables); definite-assignment analysis of per-condition loops (loop-carried state); mutation summary of the negation helper",
     "level_text": ("Decides on the current source every table-shaped logical claim the condition rewrites rely on: the "
                    "negation and mirror tables against Python's comparison semantics, De Morgan construction, all pairwise "
                    "threshold claims of simplify_boolean_expressions (each decided exhaustively over the order types of x "
